@@ -143,18 +143,23 @@ Inductive lst :=
 | SBlockClose.          (* on the '/' of the closing of a block comment *)
 
 Definition next_is (n : N) (t : list ch) : bool := match t with d :: _ => cp d =? n | [] => false end.
-Definition is_quote (c : ch) : bool := (cp c =? 39) || (cp c =? 34) || (cp c =? 96).
+(* quoteKind: the typographic single quotes U+2018 U+2019 and the guillemets U+00AB U+00BB count as the apostrophe,
+   the typographic double quotes U+201C U+201D as the quotation mark (the tokenizer's normalizeQuote) *)
+Definition nq (n : N) : N :=
+  if (n =? 8216) || (n =? 8217) || (n =? 171) || (n =? 187) then 39
+  else if (n =? 8220) || (n =? 8221) then 34 else n.
+Definition is_quote (c : ch) : bool := (nq (cp c) =? 39) || (nq (cp c) =? 34) || (cp c =? 96).
 
 (* one step of the scanner on character c followed by nx: (class of c, state after c).  A backslash is an
    ordinary character; a doubled quote closes the construct and re-opens it at once. *)
 Definition lstep (st : lst) (c : ch) (nx : list ch) : N * lst :=
   match st with
   | SCode =>
-      if is_quote c then (1, SLit (cp c))
+      if is_quote c then (1, SLit (nq (cp c)))
       else if (cp c =? 45) && next_is 45 nx then (3, SLine)
       else if (cp c =? 47) && next_is 42 nx then (2, SBlockOpen)
       else (0, SCode)
-  | SLit q => (1, if cp c =? q then SCode else SLit q)
+  | SLit q => (1, if nq (cp c) =? q then SCode else SLit q)
   | SLine => if is_nl c then (0, SCode) else (3, SLine)
   | SBlockOpen => (2, SBlock)
   | SBlock => if (cp c =? 42) && next_is 47 nx then (2, SBlockClose) else (2, SBlock)
